@@ -616,6 +616,11 @@ func randRandom(fl *drv.Flags, rng *rand.Rand, w *chain.TraceWriter) {
 			u := e.users[rng.Intn(len(e.users))]
 			ev := randEvent("RequestRandom", u)
 			ev["n"] = int64(rng.Intn(maxN + 1))
+			if rng.Intn(15) == 0 {
+				// a block interval of 2^64 - k: its due height overflows (refused since beca1b5;
+				// accepted, it would be queued under a past height for ever)
+				ev["n"] = -int64(1 + rng.Intn(3))
+			}
 			if rng.Intn(3) == 0 {
 				ev["oracle"] = true
 				ev["cap"] = e.price + int64(rng.Intn(5)) - 1
